@@ -45,6 +45,14 @@ def falsify(ctx, case: Dict) -> bool:
                 for m in ms:
                     if len(m.candles) > 2:
                         m.calculate_index(len(m.candles) // 2)
+            if after == "repopulate" and len(rows) > 3:
+                # readings wiped, the newest one computed first, the rest filled in afterwards: the
+                # accessors still describe the candles as they are
+                for m, sp in zip(ms, specs):
+                    if sp["kind"] in ("SMA", "EMA", "WMA", "RMA", "ROC", "TR", "OBV", "HLA", "DONCHIAN", "AROON", "HL", "COUNTER", "VWMA") and len(m.candles) > 2:
+                        m.purge()
+                        m.calculate_index(-1)
+                        m.calculate()
             # a reading series with holes in it (as a user function wrapped by Amorph or a manually set
             # Managed series produces), carried by the default candles: counted through a default-timeframe member
             for m in ms:
@@ -90,6 +98,15 @@ def falsify(ctx, case: Dict) -> bool:
                                 break
                     if bad:
                         break
+                    if n and after in (None, "repopulate"):
+                        # after a calculate() the indicator's own cursor is on the newest candle: reading() and
+                        # prev_reading() without an index are the newest and the one before it
+                        if not E.same_value(m.reading(nm), direct[-1]):
+                            bad = {"relation": "Indicator.reading()-default-index"}
+                            break
+                        if not E.same_value(m.prev_reading(nm), direct[-2] if n > 1 else None):
+                            bad = {"relation": "Indicator.prev_reading()-default-index"}
+                            break
                     if n:
                         latest = direct[-1]
                         if m.has_reading != (m.reading(index=-1) is not None) or (nm == m.name and m.has_reading != (latest is not None)):
@@ -157,7 +174,7 @@ def run(ctx: core.Ctx) -> int:
             specs.append(s)
             tfs.append(rng.choice([None, None, "T5", "T15"]) if not own_tf else rng.choice([None, None, own_tf, own_tf, "T15"]))
         cases.append({"specs": specs, "rows": rows, "tfs": tfs, "probe": [rng.randrange(1000) for _ in range(3)],
-                      "after": rng.choice([None, None, "calc_index_mid"]), "hcfg": hcfg})
+                      "after": rng.choice([None, None, "calc_index_mid", "repopulate"]), "hcfg": hcfg})
     ac = acccorr.AccCorr(ctx, "C20")
     for c in cases:
         ctx.count("eval_falsifier")
